@@ -88,6 +88,7 @@ def classify(lib, impl):
 def run(chk, replay=None):
     chk.proof_leg(MODEL_TARGETS, "Properties/C01.v", PROOF_FILES, "Properties.C01")
     kernel_tie_leg(chk, "gds_write")      # trait Encode (library -> records) generated from gds21/src/write.rs = flatten_lib of the writer model (Properties/KernelsGdsCodec.v)
+    kernel_tie_leg(chk, "gds_read")       # GdsReader::read_record_header / read_record_content / read_record generated from gds21/src/read.rs = read_header / read_content / read_record of the reader model (Properties/KernelsGdsCodec.v)
     chk.assumptions += [
         "GdsFloat64 codec as modelled in Gds/GdsReal.v (C15)",
         "writing into a Vec<u8> (no I/O errors); reading from a byte slice (GdsLibrary::from_bytes); family file_io: GdsLibrary::save / open on a scratch file of a working file system",
